@@ -673,6 +673,19 @@ class Interp:
                         return Opaque(norm(e), ('matches', base.struct[1]))
                     if base.struct[0] == 'matches' and isinstance(i, Rat):
                         return Rat.atom(App('match', [base.struct[1], i]))
+                    if base.struct[0] == 'concat' and isinstance(i, Rat) and i.is_const() and i.const_value() >= 0:
+                        # np.concatenate((literal scalars, slice of an array)) at a constant position
+                        k_ = int(i.const_value())
+                        for part in base.struct[1]:
+                            if isinstance(part, TupleV):
+                                if k_ < len(part.items):
+                                    return part.items[k_]
+                                k_ -= len(part.items)
+                            elif isinstance(part, View) and len(part.axes) == 1 and part.axes[0][0] == 'slice':
+                                lo = part.axes[0][1] if part.axes[0][1] is not None else Rat.const(0)
+                                return self.read(part.arr, (lo + Rat.const(k_),))
+                            else:
+                                break
                 return Opaque(norm(e))
             self.incomplete(e, 'subscript base %r' % (base,))
         idx = self.index_list(e.slice)
@@ -802,6 +815,13 @@ class Interp:
         args_nodes = e.args
         if dn.startswith(EXT_MODS) and short in ALLOCS:
             return self.alloc(short, e)
+        if dn in ('numpy.concatenate', 'numpy.hstack') and len(args_nodes) == 1 and isinstance(args_nodes[0], (ast.Tuple, ast.List)):
+            try:
+                parts = [self.ev(a) for a in args_nodes[0].elts]
+            except AnalysisIncomplete:
+                parts = None
+            if parts is not None and all(isinstance(p, (TupleV, View)) for p in parts):
+                return Opaque(norm(e), ('concat', parts))
         if dn in ('builtins.range', 'numba.prange', 'builtins.len', 'builtins.enumerate', 'builtins.zip'):
             args = [self.ev(a) for a in args_nodes]
             if short == 'len':
